@@ -16,13 +16,19 @@
 //!           the target reports only that what it received is a prefix of the upload (t_len 0, t_end 0)
 //!         7 target half-closes at once and drains slowly; local uploads 3 MB, half-closes, reads to EOF: every byte of
 //!           the upload must arrive before the target sees EOF (the chunk lists are ignored)
+//!         8 target answers and half-closes; only then the local client sends its data and KEEPS its side open until the
+//!           target has provably received all of it (l_end 1; 0 = the data did not arrive while the connection was open)
+//!         9 local writes and half-closes; the target reads to EOF, then answers and KEEPS the connection open until the
+//!           local client has provably received the whole answer (t_end 1; 0 = it did not arrive while open)
 //!   every local connection first sends a 4-byte tag (part of the payload) naming its target script
 //!   result per connection: l_len l_ok l_end t_len t_ok t_end
 //!     (len = bytes received, ok = they are exactly the peer's byte stream so far, end: 1 clean EOF,
 //!      2 error/reset, 0 still open after the timeout)
 //! UDP case:  1 2 entry shared nclients (n size_1..size_n)*
 //!   entry 0 UDP remote, 1 SOCKS5 UDP association (shared 1: one association used by all clients;
-//!   variant 0/1 IPv4 / domain-name header, 2/3 the same with each client alternating between two targets)
+//!   variant 0/1 IPv4 / domain-name header, 2/3 the same with each client alternating between two targets,
+//!   4 the target on the IPv6 loopback: IPv6 address in the SOCKS5 header / the UDP remote pointing at `[::1]`)
+//!   TCP variant + 4 (entries 0, 2, 5): the target on the IPv6 loopback (remote `[::1]:port`, SOCKS5 ATYP 4, `CONNECT [::1]:port`)
 //!   result per client: mine foreign from_ok header_ok target_got
 use crate::util::*;
 use rusty_penguin_lib::arg::{ClientArgs, Remote, ServerUrl};
@@ -59,6 +65,47 @@ struct Obs {
 }
 
 type Scripts = Arc<Mutex<HashMap<u32, TScript>>>;
+/// bytes received so far by the target (key (tag, 0)) / by the local client (key (tag, 1)): lets one end keep the
+/// connection open until the other has provably received everything
+type Progress = Arc<Mutex<HashMap<(u32, u8), u64>>>;
+
+fn progress() -> &'static Progress {
+    static P: std::sync::OnceLock<Progress> = std::sync::OnceLock::new();
+    P.get_or_init(Arc::default)
+}
+
+/// like read_all, publishing the running total
+async fn read_all_progress<R: AsyncRead + Unpin>(r: &mut R, expect: &[u8], key: (u32, u8), base: u64) -> Obs {
+    let mut got = 0usize;
+    let mut ok = 1u64;
+    let mut buf = vec![0u8; 16384];
+    progress().lock().unwrap().insert(key, base);
+    loop {
+        match tokio::time::timeout(TMO, r.read(&mut buf)).await {
+            Err(_) => return Obs { len: got as u64, ok, end: 0 },
+            Ok(Err(_)) => return Obs { len: got as u64, ok, end: 2 },
+            Ok(Ok(0)) => return Obs { len: got as u64, ok, end: 1 },
+            Ok(Ok(n)) => {
+                if got + n > expect.len() || buf[..n] != expect[got..got + n] {
+                    ok = 0;
+                }
+                got += n;
+                progress().lock().unwrap().insert(key, base + got as u64);
+            }
+        }
+    }
+}
+
+/// wait (up to 3 s) until the other end has received `want` bytes
+async fn wait_progress(key: (u32, u8), want: u64) -> bool {
+    for _ in 0..300 {
+        if progress().lock().unwrap().get(&key).copied().unwrap_or(0) >= want {
+            return true;
+        }
+        tokio::time::sleep(Duration::from_millis(10)).await;
+    }
+    false
+}
 type ObsMap = Arc<Mutex<HashMap<u32, Obs>>>;
 
 trait Io: AsyncRead + AsyncWrite + Unpin + Send {}
@@ -145,6 +192,22 @@ async fn target_conn(mut s: TcpStream, scripts: Scripts, obs: ObsMap) {
             write_chunks(&mut w, &data, &sc.t_chunks).await;
             Obs { len: 0, ok: 1, end: 0 }
         }
+        8 => {
+            // answer, half-close, then keep reading: the local client sends its data only now and keeps its side open
+            write_chunks(&mut w, &data, &sc.t_chunks).await;
+            let _ = w.shutdown().await;
+            read_all_progress(&mut r, &expect, (tag, 0), 4).await
+        }
+        9 => {
+            // read to EOF (the local client half-closed), then answer and keep the connection open until the local
+            // client has provably received the whole answer
+            let o = read_all(&mut r, &expect).await;
+            write_chunks(&mut w, &data, &sc.t_chunks).await;
+            let _ = w.flush().await;
+            let confirmed = wait_progress((tag, 1), total_t as u64).await;
+            let _ = w.shutdown().await;
+            Obs { end: if o.end == 1 { u64::from(confirmed) } else { o.end }, ..o }
+        }
         7 => {
             let _ = w.shutdown().await;
             // a slow consumer: small reads with pauses
@@ -205,11 +268,21 @@ pub struct World {
     target_udp: u16,
     target_udp2: u16,
     refused: u16,
+    /// IPv6 loopback targets and the remotes that point at them (None: no `::1` on this machine)
+    v6: Option<V6>,
     scripts: Scripts,
     obs: ObsMap,
     udp_seen: Arc<Mutex<HashMap<u32, u64>>>,
     _tmp: tempfile::TempDir,
     counter: std::cell::Cell<u32>,
+}
+
+#[derive(Clone, Copy)]
+struct V6 {
+    target_tcp: u16,
+    target_udp: u16,
+    tcp_port: u16,
+    udp_port: u16,
 }
 
 async fn free_tcp_port() -> u16 {
@@ -227,7 +300,7 @@ impl World {
         let scripts: Scripts = Arc::default();
         let obs: ObsMap = Arc::default();
         let udp_seen: Arc<Mutex<HashMap<u32, u64>>> = Arc::default();
-        let (tcp_port, tcp_refused_remote, socks_port, http_port, udp_port, target_tcp, target_udp, refused, target_udp2) = rt.block_on(async {
+        let (tcp_port, tcp_refused_remote, socks_port, http_port, udp_port, target_tcp, target_udp, refused, target_udp2, v6) = rt.block_on(async {
             // targets
             let tl = TcpListener::bind("127.0.0.1:0").await.unwrap();
             let target_tcp = tl.local_addr().unwrap().port();
@@ -269,6 +342,31 @@ impl World {
                     let _ = tu2.send_to(&reply, from).await;
                 }
             });
+            // the same targets on the IPv6 loopback, where there is one
+            let mut v6 = None;
+            if let (Ok(tl6), Ok(tu6)) = (TcpListener::bind("[::1]:0").await, UdpSocket::bind("[::1]:0").await) {
+                let (t6, u6) = (tl6.local_addr().unwrap().port(), tu6.local_addr().unwrap().port());
+                let (sc, ob) = (scripts.clone(), obs.clone());
+                tokio::spawn(async move {
+                    while let Ok((s, _)) = tl6.accept().await {
+                        tokio::spawn(target_conn(s, sc.clone(), ob.clone()));
+                    }
+                });
+                let seen6 = udp_seen.clone();
+                tokio::spawn(async move {
+                    let mut buf = vec![0u8; 65536];
+                    while let Ok((n, from)) = tu6.recv_from(&mut buf).await {
+                        if n >= 4 {
+                            let tag = u32::from_be_bytes([buf[0], buf[1], buf[2], buf[3]]);
+                            *seen6.lock().unwrap().entry(tag).or_default() += 1;
+                        }
+                        let mut reply = vec![b'T'];
+                        reply.extend_from_slice(&buf[..n]);
+                        let _ = tu6.send_to(&reply, from).await;
+                    }
+                });
+                v6 = Some(V6 { target_tcp: t6, target_udp: u6, tcp_port: free_tcp_port().await, udp_port: free_udp_port().await });
+            }
             let refused = free_tcp_port().await;
             // the real server
             let sl = TcpListener::bind("127.0.0.1:0").await.unwrap();
@@ -281,7 +379,7 @@ impl World {
             let socks_port = free_tcp_port().await;
             let http_port = free_tcp_port().await;
             let udp_port = free_udp_port().await;
-            let remotes = vec![
+            let mut remotes = vec![
                 format!("127.0.0.1:{tcp_port}:127.0.0.1:{target_tcp}"),
                 format!("127.0.0.1:{tcp_refused_remote}:127.0.0.1:{refused}"),
                 format!("[unix:{}]:127.0.0.1:{target_tcp}", uds.display()),
@@ -289,6 +387,10 @@ impl World {
                 format!("127.0.0.1:{http_port}:http"),
                 format!("127.0.0.1:{udp_port}:127.0.0.1:{target_udp}/udp"),
             ];
+            if let Some(v) = v6 {
+                remotes.push(format!("127.0.0.1:{}:[::1]:{}", v.tcp_port, v.target_tcp));
+                remotes.push(format!("127.0.0.1:{}:[::1]:{}/udp", v.udp_port, v.target_udp));
+            }
             let args: &'static ClientArgs = Box::leak(Box::new(ClientArgs {
                 server: ServerUrl::from_str(&format!("ws://127.0.0.1:{sport}/ws")).unwrap(),
                 remote: remotes.iter().map(|r| Remote::from_str(r).unwrap()).collect(),
@@ -306,16 +408,16 @@ impl World {
                 tokio::time::sleep(Duration::from_millis(10)).await;
             }
             tokio::time::sleep(Duration::from_millis(100)).await;
-            (tcp_port, tcp_refused_remote, socks_port, http_port, udp_port, target_tcp, target_udp, refused, target_udp2)
+            (tcp_port, tcp_refused_remote, socks_port, http_port, udp_port, target_tcp, target_udp, refused, target_udp2, v6)
         });
-        Self { rt, tcp_port, tcp_refused_remote, uds, socks_port, http_port, udp_port, target_tcp, target_udp, target_udp2, refused, scripts, obs, udp_seen, _tmp: tmp, counter: std::cell::Cell::new(1) }
+        Self { rt, tcp_port, tcp_refused_remote, uds, socks_port, http_port, udp_port, target_tcp, target_udp, target_udp2, refused, v6, scripts, obs, udp_seen, _tmp: tmp, counter: std::cell::Cell::new(1) }
     }
 
     /// open a local connection through the given entry point towards the target (or the refusing port)
-    async fn open(&self, entry: u64, variant: u64, refused: bool, eager: &[u8]) -> Option<Box<dyn Io>> {
-        let tport = if refused { self.refused } else { self.target_tcp };
+    async fn open(&self, entry: u64, variant: u64, refused: bool, eager: &[u8], v6: Option<V6>) -> Option<Box<dyn Io>> {
+        let tport = if refused { self.refused } else if let Some(v) = v6 { v.target_tcp } else { self.target_tcp };
         match entry {
-            0 => Some(Box::new(TcpStream::connect(("127.0.0.1", if refused { self.tcp_refused_remote } else { self.tcp_port })).await.ok()?)),
+            0 => Some(Box::new(TcpStream::connect(("127.0.0.1", if refused { self.tcp_refused_remote } else if let Some(v) = v6 { v.tcp_port } else { self.tcp_port })).await.ok()?)),
             1 => Some(Box::new(UnixStream::connect(&self.uds).await.ok()?)),
             2 => {
                 let mut s = TcpStream::connect(("127.0.0.1", self.socks_port)).await.ok()?;
@@ -326,7 +428,10 @@ impl World {
                     return None;
                 }
                 let mut req = vec![5, 1, 0];
-                if variant == 0 {
+                if v6.is_some() {
+                    req.push(4);
+                    req.extend(std::net::Ipv6Addr::LOCALHOST.octets());
+                } else if variant == 0 {
                     req.extend([1, 127, 0, 0, 1]);
                 } else {
                     req.push(3);
@@ -365,7 +470,8 @@ impl World {
             }
             _ => {
                 let mut s = TcpStream::connect(("127.0.0.1", self.http_port)).await.ok()?;
-                let req = format!("CONNECT 127.0.0.1:{tport} HTTP/1.1\r\nHost: 127.0.0.1:{tport}\r\n\r\n");
+                let host = if v6.is_some() { "[::1]" } else { "127.0.0.1" };
+                let req = format!("CONNECT {host}:{tport} HTTP/1.1\r\nHost: {host}:{tport}\r\n\r\n");
                 let mut req = req.into_bytes();
                 req.extend(eager);
                 s.write_all(&req).await.ok()?;
@@ -394,7 +500,9 @@ impl World {
         // in the same write as the request, before it has read the proxy's reply
         let tagb = tag.to_be_bytes();
         let eager = variant & 2 != 0 && entry >= 2;
-        let Some(s) = tokio::time::timeout(TMO, self.open(entry, variant & 1, shape == 5, if eager { &tagb } else { &[] })).await.ok().flatten() else {
+        // variant bit 2 (entries 0, 2, 5): the target is reached over the IPv6 loopback
+        let v6 = if variant & 4 != 0 && matches!(entry, 0 | 2 | 5) { self.v6 } else { None };
+        let Some(s) = tokio::time::timeout(TMO, self.open(entry, variant & 1, shape == 5, if eager { &tagb } else { &[] }, v6)).await.ok().flatten() else {
             // a refused target may already show as a failed entry handshake: the connection is closed
             return if shape == 5 { vec![0, 1, 1, 0, 1, 0] } else { vec![0, 0, 9, 0, 0, 9] };
         };
@@ -430,6 +538,24 @@ impl World {
                 let _ = w.write_all(tagb).await;
                 let _ = w.flush().await;
                 read_all(&mut r, &expect).await
+            }
+            8 => {
+                // read the answer to EOF (the target half-closed), then send the data and keep the connection open
+                // until the target has provably received all of it
+                let _ = w.write_all(tagb).await;
+                let _ = w.flush().await;
+                let o = read_all(&mut r, &expect).await;
+                write_chunks(&mut w, &data, &l_chunks).await;
+                let _ = w.flush().await;
+                let confirmed = wait_progress((tag, 0), 4 + total_l as u64).await;
+                let _ = w.shutdown().await;
+                Obs { end: if o.end == 1 { u64::from(confirmed) } else { o.end }, ..o }
+            }
+            9 => {
+                let _ = w.write_all(tagb).await;
+                write_chunks(&mut w, &data, &l_chunks).await;
+                let _ = w.shutdown().await;
+                read_all_progress(&mut r, &expect, (tag, 1), 0).await
             }
             4 => {
                 let _ = w.write_all(tagb).await;
@@ -487,6 +613,7 @@ impl World {
             t.unwrap_or(Obs { len: 0, ok: 0, end: 8 })
         };
         self.scripts.lock().unwrap().remove(&tag);
+        progress().lock().unwrap().retain(|k, _| k.0 != tag);
         vec![l.len, l.ok, l.end, t.len, t.ok, t.end]
     }
 
@@ -512,17 +639,22 @@ impl World {
 
     async fn udp_client(&self, entry: u64, variant: u64, relay: Option<SocketAddr>, tag: u32, sizes: Vec<usize>) -> Vec<u64> {
         let sock = UdpSocket::bind("127.0.0.1:0").await.unwrap();
+        // variant 4: the target is on the IPv6 loopback (SOCKS5 header with an IPv6 address / the UDP remote that points there)
+        let v6 = if variant == 4 { self.v6 } else { None };
         let dest: SocketAddr = match relay {
             Some(r) => r,
-            None => ([127, 0, 0, 1], self.udp_port).into(),
+            None => ([127, 0, 0, 1], if let Some(v) = v6 { v.udp_port } else { self.udp_port }).into(),
         };
         // variants 2 and 3: one client alternates between two targets through the same association
-        let two = entry == 1 && variant >= 2;
+        let two = entry == 1 && (variant == 2 || variant == 3);
         let mk_header = |port: u16| -> Vec<u8> {
             let mut header = vec![];
             if entry == 1 {
                 header.extend([0, 0, 0]);
-                if variant % 2 == 0 {
+                if v6.is_some() {
+                    header.push(4);
+                    header.extend(std::net::Ipv6Addr::LOCALHOST.octets());
+                } else if variant % 2 == 0 {
                     header.extend([1, 127, 0, 0, 1]);
                 } else {
                     header.push(3);
@@ -545,11 +677,11 @@ impl World {
                 p.extend(stream_bytes(tag, 100 + seq as u64, sz));
             }
             let second = two && seq % 2 == 1;
-            let mut d = mk_header(if second { self.target_udp2 } else { self.target_udp });
+            let mut d = mk_header(if second { self.target_udp2 } else if let Some(v) = v6 { v.target_udp } else { self.target_udp });
             d.extend(&p);
             let _ = sock.send_to(&d, dest).await;
             // what must come back: the target's mark in front of the payload
-            let mut want = vec![if second { b'S' } else { b'R' }];
+            let mut want = vec![if second { b'S' } else if v6.is_some() { b'T' } else { b'R' }];
             want.extend(&p);
             sent.push(want);
             tokio::time::sleep(Duration::from_millis(2)).await;
@@ -649,6 +781,14 @@ impl World {
         let base = self.counter.get();
         self.counter.set(base + 64);
         let base = 0x0100_0000 + base;
+        let wants_v6 = match c.first() {
+            Some(1) => c.get(2).is_some_and(|v| v & 4 != 0) && matches!(c.get(1), Some(0 | 2 | 5)),
+            Some(2) => c.get(3) == Some(&4),
+            _ => false,
+        };
+        if wants_v6 && self.v6.is_none() {
+            return vec![999_996]; // no IPv6 loopback here: not run
+        }
         match c.first() {
             Some(1) if c.len() >= 4 => self.rt.block_on(self.tcp_case(&c[1..], base)),
             Some(2) if c.len() >= 5 => self.rt.block_on(self.udp_case(&c[1..], base)),
@@ -685,9 +825,16 @@ pub fn generate(a: &Args, out: &mut Out) {
     };
     // one case per (entry, shape) first
     if !a.mode.contains("random-only") {
-        for (entry, variant) in [(0u64, 0u64), (1, 0), (2, 0), (2, 1), (3, 0), (4, 0), (5, 0), (2, 2), (2, 3), (3, 2), (4, 2), (5, 2)] {
-            for shape in 0..8u64 {
-                if variant >= 2 && !matches!(shape, 0 | 2 | 4) {
+        let mut evs = vec![(0u64, 0u64), (1, 0), (2, 0), (2, 1), (3, 0), (4, 0), (5, 0), (2, 2), (2, 3), (3, 2), (4, 2), (5, 2)];
+        if w.v6.is_some() {
+            evs.extend([(0, 4), (2, 4), (2, 6), (5, 4), (5, 6)]);
+        }
+        for (entry, variant) in evs {
+            for shape in 0..10u64 {
+                if variant >= 4 && !matches!(shape, 0 | 1 | 2 | 5 | 8 | 9) {
+                    continue;
+                }
+                if variant >= 2 && variant < 4 && !matches!(shape, 0 | 2 | 4 | 8 | 9) {
                     continue;
                 }
                 if shape == 7 && !matches!(entry, 0 | 2 | 5) {
@@ -705,14 +852,22 @@ pub fn generate(a: &Args, out: &mut Out) {
         emit(out, vec![1, 2, 1, 1, 1, 3, 2, 10, 600, 3, 6, 7, 1400, 1, 64]);
         emit(out, vec![1, 2, 1, 0, 2, 2, 4, 10, 600, 30, 8, 3, 6, 7, 1400]);
         emit(out, vec![1, 2, 1, 1, 3, 2, 4, 10, 600, 30, 8, 3, 6, 7, 1400]);
+        if w.v6.is_some() {
+            emit(out, vec![1, 2, 0, 0, 4, 2, 3, 10, 600, 1400, 2, 7, 64]);
+            emit(out, vec![1, 2, 1, 1, 4, 2, 3, 10, 600, 1400, 2, 7, 64]);
+            emit(out, vec![1, 2, 1, 0, 4, 1, 4, 10, 600, 1400, 9000]);
+        }
     }
     for _ in 0..a.n {
         if rng.chance(3, 4) {
-            let (entry, variant) = rng.pick(&[(0u64, 0u64), (1, 0), (2, 0), (2, 1), (3, 0), (4, 0), (5, 0), (2, 2), (2, 3), (3, 2), (4, 2), (5, 2)]);
+            let (mut entry, mut variant) = rng.pick(&[(0u64, 0u64), (1, 0), (2, 0), (2, 1), (3, 0), (4, 0), (5, 0), (2, 2), (2, 3), (3, 2), (4, 2), (5, 2), (0, 4), (2, 4), (2, 6), (5, 4), (5, 6)]);
+            if variant & 4 != 0 && w.v6.is_none() {
+                (entry, variant) = (entry, variant & 3);
+            }
             let nconn = if rng.chance(1, 3) { 2 + rng.below(4) } else { 1 };
             let mut c = vec![1, 1, entry, variant, nconn];
             for _ in 0..nconn {
-                let mut shape = rng.pick(&[0u64, 0, 1, 1, 2, 2, 2, 3, 4, 5, 6, 0, 1, 2, 3, 4, 7]);
+                let mut shape = rng.pick(&[0u64, 0, 1, 1, 2, 2, 2, 3, 4, 5, 6, 0, 1, 2, 3, 4, 7, 8, 8, 9, 9]);
                 if shape == 5 && entry == 1 {
                     shape = 2;
                 }
@@ -729,7 +884,7 @@ pub fn generate(a: &Args, out: &mut Out) {
         } else {
             let entry = rng.below(2);
             let shared = rng.below(2);
-            let variant = if entry == 1 { rng.below(4) } else { rng.below(2) };
+            let variant = if w.v6.is_some() && rng.chance(1, 5) { 4 } else if entry == 1 { rng.below(4) } else { rng.below(2) };
             let ncl = 1 + rng.below(4);
             let mut c = vec![1, 2, entry, shared, variant, ncl];
             for _ in 0..ncl {
